@@ -306,6 +306,9 @@ class Connector:
 
     def _schedule_connection(self, delay, h, is_relay):
         ep = endpoint_from_hint_obj(h, self._tor, self._reactor)
+        if ep is None:
+            # e.g. a tor hint (possibly inside a relay hint) but we have no Tor
+            return
         desc = describe_hint_obj(h, is_relay, self._tor)
         d = deferLater(self._reactor, delay,
                        self._connect, ep, desc, is_relay)
